@@ -1989,8 +1989,18 @@ class collect(Stream):
         # to the next collection, it must not be wiped afterwards
         self.cache.clear()
         self.metadata_cache.clear()
-        self._emit(out, metadata)
+        ret = self._emit(out, metadata)
         self._release_refs(metadata)
+        if ret and self.loop is not None:
+            try:
+                on_loop = asyncio.get_running_loop() is getattr(self.loop, 'asyncio_loop', None)
+            except RuntimeError:
+                on_loop = False
+            if on_loop:
+                # one awaitable for whoever triggered the flush
+                # (``trigger.sink(collector.flush)``), so that it waits for
+                # the consumers of the collection like any other emit does
+                return gen.convert_yielded(ret)
 
 
 @Stream.register_api()
